@@ -794,6 +794,61 @@ Proof.
   - apply G; [lia|exact H].
 Qed.
 
+Lemma take_app_ext : forall n (r a b x : list byte), take n r = Some (a, b) -> take n (r ++ x) = Some (a, b ++ x).
+Proof.
+  induction n as [|n IH]; intros r a b x H; simpl in H.
+  - inversion H; subst. reflexivity.
+  - destruct r as [|y r]; [discriminate|]. destruct (take n r) as [[a' b']|] eqn:E; [|discriminate].
+    inversion H; subst. simpl. rewrite (IH _ _ _ x E). reflexivity.
+Qed.
+Lemma parse_desc_ext pre d t x : parse_desc pre = Some (d, t) -> parse_desc (pre ++ x) = Some (d, t ++ x).
+Proof.
+  intro H. destruct pre as [|flg [|bd r]]; try discriminate H.
+  simpl app. rewrite parse_desc_factor in *.
+  destruct (spec_flags flg bd) as [[[[[[indep bcrc] csz] ccrc] did] bsid]|]; [|discriminate].
+  destruct (take _ r) as [[cs r1]|] eqn:T1; [|discriminate].
+  destruct (take _ r1) as [[di r2]|] eqn:T2; [|discriminate].
+  destruct r2 as [|hc r3]; [discriminate|].
+  rewrite (take_app_ext _ _ _ _ x T1), (take_app_ext _ _ _ _ x T2). simpl app.
+  destruct (hc =? header_checksum (flg :: bd :: cs ++ di)) eqn:EH; [|discriminate]. inversion H; subst.
+  cbn [app]. rewrite EH. reflexivity.
+Qed.
+
+(* after the header: the rest of the call is the block loop *)
+Lemma after_header s0 o (data rest : list byte) m0 m1 m2 m3 d tl sX fuel l1 l' :
+  data = m0 :: m1 :: m2 :: m3 :: rest -> le_val [m0; m1; m2; m3] = FD_MAGICNUMBER -> bytes_ok rest = true ->
+  parse_desc rest = Some (d, tl) ->
+  l_s l1 = accept_state sX d -> d_skip sX = o_skip o -> d_hist sX = d_hist s0 -> d_remaining sX = 0 ->
+  l_src l1 = tl -> l_out l1 = [] -> wf (l_s l1) -> 0 <= l_cap l1 ->
+  run bdec fuel o l1 = (l', FStop 0) -> zlen (l_out l') < 18446744073709551616 ->
+  frame_decode bdec (o_skip o) (d_hist s0) data = Some (l_out l', l_src l').
+Proof.
+  intros Hd Hm Hbr PD Hs1 Hsk Hh Hrem Hsrc Hout W Hc ER Hlen.
+  assert (HB : bsid_size (f_bsid d) = Some (blockSize_of_id (f_bsid d))).
+  { assert (H7 : FD_minFHSize <= zlen (m0 :: m1 :: m2 :: m3 :: rest)).
+    { destruct rest as [|f [|b [|c r]]]; try discriminate PD.
+      - exfalso. unfold parse_desc in PD. simpl in PD.
+        repeat (match type of PD with (if ?c then _ else _) = _ => destruct c; try discriminate PD end).
+        destruct ((f / 8) mod 2 =? 1); simpl in PD; try discriminate PD.
+        destruct (f mod 2 =? 1); simpl in PD; discriminate PD.
+      - unfold zlen, FD_minFHSize. simpl length. lia. }
+    pose proof (decodeHeader_iff dctx_init false m0 m1 m2 m3 rest Hbr Hm H7) as I. rewrite PD in I. apply I. }
+  set (maxb := blockSize_of_id (f_bsid d)) in *.
+  destruct (parse_desc_suffix _ _ _ PD) as [pre Hpre].
+  set (K := fun res : list byte * list byte => frame_decode bdec (o_skip o) (d_hist s0) data = Some res).
+  assert (I1 : Inv bdec (o_skip o) d maxb (d_hist s0) K l1).
+  { apply I_init; auto.
+    - rewrite Hs1. apply accept_state_fields.
+    - rewrite Hs1. apply binv_after_init; auto.
+      destruct (f_csize d) as [n|] eqn:EN; [|exact I]. eapply parse_desc_csize_bound; eauto.
+    - rewrite Hsrc. rewrite Hpre in Hbr. rewrite bytes_ok_app in Hbr. apply andb_prop in Hbr. apply Hbr.
+    - intros res (F & HF). unfold K, frame_decode. rewrite Hd.
+      change (take 4 (m0 :: m1 :: m2 :: m3 :: rest)) with (Some ([m0; m1; m2; m3], rest)). cbv iota beta. rewrite Hm.
+      replace (FD_MAGICNUMBER =? MAGIC) with true by (vm_compute; reflexivity). rewrite PD, HB.
+      rewrite Hsrc in HF. eapply blocks_mono; [exact HF|lia]. }
+  exact (run_sound bdec (o_skip o) d maxb (d_hist s0) o K fuel l1 l' I1 W Hc ER Hlen).
+Qed.
+
 (* One call of LZ4F_decompress on a context that is at the start of a frame (fresh, or after
    LZ4F_resetDecompressionContext / a completed frame), given at least maxFHSize bytes that
    start with the LZ4 frame magic number.  If the call returns 0:
@@ -876,4 +931,256 @@ Proof.
   unfold K in KK. exists (l_src l'). split; [exact KK|].
   unfold acct, l0 in A0; ss. lia.
 Qed.
+
+(* ---- the same for inputs shorter than maxFHSize: the header is staged in dctx->header ---- *)
+Lemma ztake_cons4 k (m0 m1 m2 m3 : byte) rest : 4 <= k ->
+  ztake k (m0 :: m1 :: m2 :: m3 :: rest) = m0 :: m1 :: m2 :: m3 :: ztake (k - 4) rest.
+Proof. intro H. unfold ztake. replace (Z.to_nat k) with (S (S (S (S (Z.to_nat (k - 4)))))) by lia. reflexivity. Qed.
+Lemma zdrop_cons4 k (m0 m1 m2 m3 : byte) rest : 4 <= k ->
+  zdrop k (m0 :: m1 :: m2 :: m3 :: rest) = zdrop (k - 4) rest.
+Proof. intro H. unfold zdrop. replace (Z.to_nat k) with (S (S (S (S (Z.to_nat (k - 4)))))) by lia. reflexivity. Qed.
+Lemma firstn_split_add : forall a b (l : list byte), firstn a l ++ firstn b (skipn a l) = firstn (a + b) l.
+Proof.
+  induction a as [|a IH]; intros b l; [reflexivity|]. destruct l as [|x l]; [simpl; rewrite firstn_nil; reflexivity|].
+  simpl. f_equal. apply IH.
+Qed.
+Lemma ztake_split a b (l : list byte) : 0 <= a -> 0 <= b -> ztake a l ++ ztake b (zdrop a l) = ztake (a + b) l.
+Proof. intros Ha Hb. unfold ztake, zdrop. rewrite firstn_split_add. f_equal. lia. Qed.
+Lemma skipn_skipn_add : forall a b (l : list byte), skipn b (skipn a l) = skipn (a + b) l.
+Proof.
+  induction a as [|a IH]; intros b l; [reflexivity|]. destruct l as [|x l]; [simpl; rewrite skipn_nil; reflexivity|].
+  simpl. apply IH.
+Qed.
+Lemma zdrop_zdrop a b (l : list byte) : 0 <= a -> 0 <= b -> zdrop b (zdrop a l) = zdrop (a + b) l.
+Proof. intros Ha Hb. unfold zdrop. rewrite skipn_skipn_add. f_equal. lia. Qed.
+Lemma wr0 (h p : list byte) : wr h 0 p = p.
+Proof. reflexivity. Qed.
+Lemma zlen0_nil (l : list byte) : zlen l = 0 -> l = [].
+Proof. destruct l; [reflexivity|]. unfold zlen. simpl. lia. Qed.
+
+Lemma pair_stop_inj (a b : lst) x y : (a, Stop x) = (b, Stop y) -> x = y.
+Proof. intro H. inversion H. reflexivity. Qed.
+
+Lemma decodeHeader_keeps s b src s' r :
+  decodeHeader s b src = (s', r) ->
+  d_skip s' = d_skip s /\ d_hist s' = d_hist s /\ (d_stage s' = StoreFrameHeader -> d_remaining s' = d_remaining s).
+Proof.
+  unfold decodeHeader. intro H.
+  destruct (zlen src <? FD_minFHSize); [inversion H; subst; auto|].
+  destruct (Z.land (rd32 src) SKIP_MASK =? FD_MAGIC_SKIPPABLE_START); [destruct b; inversion H; subst; ss; auto|].
+  destruct (negb (rd32 src =? FD_MAGICNUMBER)); [inversion H; subst; ss; auto|].
+  destruct (nth_error src 4); [|inversion H; subst; ss; auto].
+  destruct (nth_error src 5); [|inversion H; subst; ss; auto].
+  destruct (flg_decode _) as [e|[[[[bm bc] cs] cc] di]]; [inversion H; subst; ss; auto|].
+  destruct (zlen src <? fh_size cs di); [destruct b; inversion H; subst; ss; auto|].
+  destruct (bd_decode _); [inversion H; subst; ss; auto|].
+  destruct (nth_error src _); [|inversion H; subst; ss; auto].
+  destruct (negb _); [inversion H; subst; ss; auto|].
+  inversion H; subst. destruct (cs =? 0); ss; repeat split; auto; discriminate.
+Qed.
+
+(* dstage_storeFrameHeader continues only when the header has been completed to its target *)
+Definition sfh_n (l : lst) : Z := d_tmpInTarget (l_s l) - d_tmpInSize (l_s l).
+Definition sfh_hdr (l : lst) : list byte := wr (d_header (l_s l)) (d_tmpInSize (l_s l)) (ztake (sfh_n l) (l_src l)).
+Definition sfh_state (l : lst) : dstate :=
+  set_tmpInSize (set_oob (set_header (l_s l) (sfh_hdr l)) false) (d_tmpInTarget (l_s l)).
+Lemma storeFrameHeader_continue l l1 :
+  d_oob (l_s l) = false -> 0 <= d_tmpInSize (l_s l) < d_tmpInTarget (l_s l) ->
+  d_tmpInTarget (l_s l) <= FD_header_array_size ->
+  do_storeFrameHeader l = (l1, Continue) ->
+  sfh_n l <= zlen (l_src l) /\
+  exists r, decodeHeader (sfh_state l) true (ztake (d_tmpInTarget (l_s l)) (sfh_hdr l)) = (l_s l1, r) /\ 0 <= r /\
+            l_src l1 = zdrop (sfh_n l) (l_src l) /\ l_out l1 = l_out l /\ l_cap l1 = l_cap l.
+Proof.
+  intros Ho Hs Ht H. unfold sfh_state, sfh_hdr, sfh_n. unfold do_storeFrameHeader in H.
+  pose proof (zlen_nonneg (l_src l)) as Hl.
+  set (k := Z.min (d_tmpInTarget (l_s l) - d_tmpInSize (l_s l)) (zlen (l_src l))) in *.
+  assert (Hk : 0 <= k <= zlen (l_src l) /\ k <= d_tmpInTarget (l_s l) - d_tmpInSize (l_s l)) by (unfold k; lia).
+  rewrite (hdr_write_eq (l_s l) _ k) in H by (auto; lia). ss.
+  destruct (d_tmpInSize (l_s l) + k <? d_tmpInTarget (l_s l)) eqn:E; [discriminate H|].
+  apply Z.ltb_ge in E.
+  assert (Hkn : k = d_tmpInTarget (l_s l) - d_tmpInSize (l_s l)) by lia.
+  rewrite Hkn in *. replace (d_tmpInSize (l_s l) + (d_tmpInTarget (l_s l) - d_tmpInSize (l_s l))) with (d_tmpInTarget (l_s l)) in H by lia.
+  split; [lia|].
+  match type of H with (let '(s', r) := decodeHeader ?sb true ?hh in _) = _ =>
+    destruct (decodeHeader sb true hh) as [s' r] eqn:ED end.
+  destruct (r <? 0) eqn:Er; [discriminate H|]. apply Z.ltb_ge in Er.
+  inversion H; subst. exists r. ss. auto.
+Qed.
+
+Theorem oneshot_sound_short : forall s0 data cap o,
+  wf s0 -> d_stage s0 = GetFrameHeader -> d_remaining s0 = 0 -> d_skip s0 = false ->
+  bytes_ok data = true -> 0 <= cap -> zlen data < FD_maxFHSize ->
+  le_val (ztake 4 data) = FD_MAGICNUMBER ->
+  let r := snd (decompress bdec s0 data cap o) in
+  r_ret r = 0 -> zlen (r_out r) < 18446744073709551616 ->
+  exists rest, frame_decode bdec (o_skip o) (d_hist s0) data = Some (r_out r, rest) /\
+               r_consumed r = zlen data - zlen rest.
+Proof.
+  intros s0 data cap o Hwf Hst Hrem Hsk Hb Hc H19 Hmagic. unfold decompress.
+  set (s1 := set_skip s0 (d_skip s0 || o_skip o)).
+  assert (W1 : wf s1) by (apply wf_set_skip; exact Hwf).
+  set (l0 := mkL s1 data 0 [] cap).
+  destruct (run bdec (call_fuel data) o l0) as [l' f] eqn:ER.
+  pose proof (run_post bdec o _ l0 l' f W1 Hc ER) as (A0 & _ & NF & R0).
+  pose proof (zlen_nonneg data) as Hl.
+  destruct f as [h|v|]; ss.
+  2:{ intros Hv. subst v. destruct R0 as [R0|(_ & _ & _ & R0)]; lia. }
+  2:{ intros _ _. exfalso. apply NF; [|reflexivity]. unfold mu, call_fuel, l0; ss. pose proof (rank_range (d_stage s1)). lia. }
+  intros Hh Hlen. subst h.
+  assert (Hres : forall rest, frame_decode bdec (o_skip o) (d_hist s0) data = Some (l_out l', rest) -> rest = l_src l' ->
+                 exists rest0, frame_decode bdec (o_skip o) (d_hist s0) data = Some (l_out l', rest0) /\
+                               l_used l' = zlen data - zlen rest0).
+  { intros rest HF ->. exists (l_src l'). split; [exact HF|]. unfold acct, l0 in A0; ss. lia. }
+  unfold FD_maxFHSize in H19.
+  assert (Hfuel : exists fuel, call_fuel data = S (S fuel)).
+  { unfold call_fuel. exists (Z.to_nat (4 * zlen data + 14)). lia. }
+  destruct Hfuel as [fuel Hfuel]. rewrite Hfuel in ER. cbn [run] in ER.
+  pose proof (iter_post bdec o l0 W1 Hc) as P0.
+  unfold iter in ER, P0. replace (d_stage (l_s l0)) with GetFrameHeader in * by (unfold l0, s1; ss; auto).
+  unfold do_getFrameHeader in ER, P0.
+  replace (FD_maxFHSize <=? zlen (l_src l0)) with false in * by (symmetry; apply Z.leb_gt; unfold l0, FD_maxFHSize; ss; lia).
+  destruct (zlen (l_src l0) =? 0) eqn:E0; [discriminate ER|].
+  set (sA := set_stage (set_tmpInTarget (set_tmpInSize (l_s l0) 0) FD_minFHSize) StoreFrameHeader) in *.
+  destruct (do_storeFrameHeader (with_s l0 sA)) as [l1 oc] eqn:ES.
+  destruct oc as [|h|v]; [| |discriminate ER].
+  2:{ (* a stop in the header stage has a positive hint *)
+      exfalso. inversion ER; subst. clear ER. revert ES. unfold do_storeFrameHeader.
+      match goal with |- context [hdr_write ?s ?p ?n] => set (sw := hdr_write s p n) end.
+      destruct (d_tmpInSize sw <? d_tmpInTarget sw) eqn:E.
+      - intro H. apply pair_stop_inj in H. apply Z.ltb_lt in E. unfold FD_BHSize in H. lia.
+      - destruct (decodeHeader _ _ _) as [s' r]. destruct (r <? 0); discriminate. }
+  cbn [fst snd] in P0. destruct P0 as [A1 [W2 _]].
+  (* the first seven bytes *)
+  assert (HoA : d_oob sA = false) by (unfold sA, l0; ss; apply W1).
+  assert (HsA : d_tmpInSize sA = 0 /\ d_tmpInTarget sA = 7) by (unfold sA; ss; auto).
+  destruct (storeFrameHeader_continue (with_s l0 sA) l1) as (Hn7 & r & ED & Hr & Hs1 & Ho1 & Hc1);
+    [ss; exact HoA | ss; lia | ss; unfold FD_header_array_size; lia | exact ES |].
+  unfold sfh_state, sfh_hdr, sfh_n in ED, Hn7, Hs1. unfold sA in ED, Hn7, Hs1; ss. unfold l0 in ED, Hn7, Hs1, Ho1, Hc1; ss.
+  replace (FD_minFHSize - 0) with 7 in * by reflexivity. rewrite wr0 in ED.
+  assert (Hz7 : zlen (ztake 7 data) = 7) by (rewrite zlen_ztake; lia).
+  change FD_minFHSize with 7 in ED. rewrite (ztake_all 7 (ztake 7 data)) in ED by lia.
+  destruct data as [|m0 [|m1 [|m2 [|m3 rest]]]]; try (unfold zlen in Hn7; simpl in Hn7; lia).
+  assert (Hm : le_val [m0; m1; m2; m3] = FD_MAGICNUMBER) by exact Hmagic.
+  assert (Hbr : bytes_ok rest = true).
+  { unfold bytes_ok in *. simpl in Hb. repeat (apply andb_prop in Hb; destruct Hb as [_ Hb]). exact Hb. }
+  set (data := m0 :: m1 :: m2 :: m3 :: rest) in *.
+  unfold data in ED, Hz7. rewrite (ztake_cons4 7) in ED, Hz7 by lia. replace (7 - 4) with 3 in * by reflexivity.
+  destruct (bytes_ok_split 3 rest Hbr) as [Hb3 Hb3'].
+  match type of ED with decodeHeader ?sb true _ = _ => set (sB := sb) in * end.
+  assert (HsB : d_skip sB = o_skip o /\ d_hist sB = d_hist s0 /\ d_remaining sB = 0 /\ d_oob sB = false /\ d_stage sB = StoreFrameHeader).
+  { unfold sB, s1; ss. rewrite Hsk. auto. }
+  destruct HsB as (Q1 & Q2 & Q3 & Q4 & Q5).
+  assert (H7 : FD_minFHSize <= zlen (m0 :: m1 :: m2 :: m3 :: ztake 3 rest)) by (rewrite Hz7; unfold FD_minFHSize; lia).
+  pose proof (decodeHeader_cases _ _ _ _ _ ED) as (D1 & D2 & D3 & D).
+  assert (Hrd : forall x, rd32 (m0 :: m1 :: m2 :: m3 :: x) = FD_MAGICNUMBER).
+  { intro x. change (rd32 (m0 :: m1 :: m2 :: m3 :: x)) with (u32 (le_val [m0; m1; m2; m3])). rewrite Hm. reflexivity. }
+  destruct D as [D|[D|[D|[D|D]]]].
+  - exfalso. lia.
+  - destruct D as (_ & _ & _ & _ & D). rewrite Hrd in D. exfalso. exact (magic_not_skippable D).
+  - destruct D as (D & _). discriminate D.
+  - (* the header is longer than 7 bytes: a second round of staging *)
+    destruct D as (Dst & Dsz & Dt & _ & _ & Dh & _ & FLG & bm & bc & cs & cc & di & N4 & EF & FS).
+    specialize (Dh eq_refl). rewrite Hz7 in Dsz, Dt.
+    set (T := d_tmpInTarget (l_s l1)) in *.
+    cbn [run] in ER.
+    pose proof (iter_post bdec o l1 W2 ltac:(lia)) as P1.
+    unfold iter in ER, P1. rewrite Dst in ER, P1.
+    destruct (do_storeFrameHeader l1) as [l2 oc] eqn:ES2.
+    destruct oc as [|h|v]; [| |discriminate ER].
+    2:{ exfalso. inversion ER; subst. clear ER. revert ES2. unfold do_storeFrameHeader.
+        match goal with |- context [hdr_write ?s ?p ?n] => set (sw := hdr_write s p n) end.
+        destruct (d_tmpInSize sw <? d_tmpInTarget sw) eqn:E.
+        - intro H. apply pair_stop_inj in H. apply Z.ltb_lt in E. unfold FD_BHSize in H. lia.
+        - match goal with |- context [decodeHeader ?a ?b ?c] => destruct (decodeHeader a b c) as [s' r'] end.
+          destruct (r' <? 0); discriminate. }
+    cbn [fst snd] in P1. destruct P1 as [A2 [W3 _]].
+    destruct (storeFrameHeader_continue l1 l2) as (Hn2 & r2 & ED2 & Hr2 & Hs2 & Ho2 & Hc2); auto; try lia; try congruence.
+    unfold sfh_state, sfh_hdr, sfh_n in ED2, Hn2, Hs2.
+    fold T in ED2, Hn2, Hs2. rewrite Dsz in ED2, Hn2, Hs2. rewrite Dh in ED2. rewrite Hs1 in ED2, Hn2, Hs2.
+    unfold sB in ED2. ss.
+    assert (HT : zlen data - 7 >= T - 7) by (rewrite zlen_zdrop in Hn2 by lia; lia).
+    rewrite wr_app in ED2 by exact Hz7.
+    change (m0 :: m1 :: m2 :: m3 :: ztake 3 rest) with (ztake 7 data) in ED2.
+    rewrite (ztake_split 7 (T - 7) data) in ED2 by lia. replace (7 + (T - 7)) with T in ED2 by lia.
+    assert (HzT : zlen (ztake T data) = T) by (rewrite zlen_ztake; lia).
+    rewrite (ztake_all T (ztake T data)) in ED2 by lia.
+    unfold data in ED2, HzT. rewrite (ztake_cons4 T) in ED2, HzT by lia. fold data in ED2.
+    match type of ED2 with decodeHeader ?sc true _ = _ => set (sC := sc) in * end.
+    assert (HsC : d_skip sC = o_skip o /\ d_hist sC = d_hist s0 /\ d_remaining sC = 0 /\ d_stage sC = StoreFrameHeader).
+    { destruct (decodeHeader_keeps _ _ _ _ _ ED) as (X1 & X2 & X3). unfold sC; ss.
+      rewrite X1, X2, (X3 Dst), Q1, Q2, Q3. auto. }
+    destruct HsC as (V1 & V2 & V3 & V5).
+    destruct (bytes_ok_split (T - 4) rest Hbr) as [HbT HbT'].
+    assert (H7T : FD_minFHSize <= zlen (m0 :: m1 :: m2 :: m3 :: ztake (T - 4) rest)) by (rewrite HzT; unfold FD_minFHSize; lia).
+    pose proof (decodeHeader_cases _ _ _ _ _ ED2) as (_ & _ & _ & D').
+    assert (N4' : nth_error (m0 :: m1 :: m2 :: m3 :: ztake (T - 4) rest) 4 = Some FLG).
+    { rewrite <- (ztake_cons4 T) by lia. rewrite <- (ztake_cons4 7) in N4 by lia.
+      rewrite nth_error_ztake in * by lia. exact N4. }
+    destruct D' as [D'|[D'|[D'|[D'|D']]]].
+    + exfalso. lia.
+    + destruct D' as (_ & _ & _ & _ & D'). rewrite Hrd in D'. exfalso. exact (magic_not_skippable D').
+    + destruct D' as (D' & _). discriminate D'.
+    + exfalso. destruct D' as (_ & _ & Dt' & _ & _ & _ & _ & FLG' & bm' & bc' & cs' & cc' & di' & N4'' & EF' & FS').
+      rewrite N4' in N4''. inversion N4''; subst FLG'. rewrite EF in EF'. inversion EF'; subst. rewrite HzT in Dt'. lia.
+    + destruct D' as (Dr' & Dst' & _).
+      destruct (decode_accept sC true m0 m1 m2 m3 (ztake (T - 4) rest) (l_s l2) r2 HbT Hm H7T ED2 Hr2 Dst')
+        as (d & tl & PD & Hacc & Hr2' & HB).
+      (* the header size returned is the target: nothing of the staged bytes is left over *)
+      assert (Htl : tl = []).
+      { apply zlen0_nil. pose proof (zlen_nonneg tl).
+        destruct (decodeHeader_ret_size _ _ _ _ _ ED2 Dst') as [X|X]; [|rewrite V5 in X; discriminate X].
+        assert (HS : headerSize false (m0 :: m1 :: m2 :: m3 :: ztake (T - 4) rest) = fh_size cs di).
+        { apply (headerSize_fh _ FLG bm bc cs cc di); auto. rewrite <- X. lia. }
+        rewrite HzT in Hr2'. lia. }
+      subst tl.
+      assert (PDfull : parse_desc rest = Some (d, zdrop (T - 4) rest)).
+      { rewrite <- (ztake_zdrop_app (T - 4) rest) at 1. apply (parse_desc_ext _ d [] _ PD). }
+      apply (Hres (l_src l')); [|reflexivity].
+      apply (after_header s0 o data rest m0 m1 m2 m3 d (zdrop (T - 4) rest) sC fuel l2 l'); auto.
+      * rewrite Hs2. rewrite zdrop_zdrop by lia. replace (7 + (T - 7)) with T by lia. unfold data. apply zdrop_cons4. lia.
+      * rewrite Ho2, Ho1. reflexivity.
+      * lia.
+  - (* the header is 7 bytes long *)
+    destruct D as (Dr & Dst & _).
+    destruct (decode_accept sB true m0 m1 m2 m3 (ztake 3 rest) (l_s l1) r Hb3 Hm H7 ED Hr Dst)
+      as (d & tl & PD & Hacc & Hr' & HB).
+    assert (Htl : tl = []).
+    { apply zlen0_nil. pose proof (zlen_nonneg tl). rewrite Hz7 in Hr', Dr. unfold FD_minFHSize in Dr. lia. }
+    subst tl.
+    assert (PDfull : parse_desc rest = Some (d, zdrop 3 rest)).
+    { rewrite <- (ztake_zdrop_app 3 rest) at 1. apply (parse_desc_ext _ d [] _ PD). }
+    apply (Hres (l_src l')); [|reflexivity].
+    assert (ER' : run bdec (S fuel) o l1 = (l', FStop 0)) by exact ER.
+    apply (after_header s0 o data rest m0 m1 m2 m3 d (zdrop 3 rest) sB (S fuel) l1 l'); auto; try lia.
+Qed.
+
+(* both cases together *)
+Theorem oneshot_sound : forall s0 data cap o,
+  wf s0 -> d_stage s0 = GetFrameHeader -> d_remaining s0 = 0 -> d_skip s0 = false ->
+  bytes_ok data = true -> 0 <= cap -> le_val (ztake 4 data) = FD_MAGICNUMBER ->
+  let r := snd (decompress bdec s0 data cap o) in
+  r_ret r = 0 -> zlen (r_out r) < 18446744073709551616 ->
+  exists rest, frame_decode bdec (o_skip o) (d_hist s0) data = Some (r_out r, rest) /\
+               r_consumed r = zlen data - zlen rest.
+Proof.
+  intros s0 data cap o H1 H2 H3 H4 H5 H6 H7.
+  destruct (Z_lt_ge_dec (zlen data) FD_maxFHSize) as [L|L].
+  - apply oneshot_sound_short; auto.
+  - apply oneshot_sound_long; auto. lia.
+Qed.
 End OneShot.
+
+(* LZ4F_decompress_usingDict on a context at the start of a frame *)
+Theorem oneshot_sound_usingDict bdec : forall s0 data cap dict o,
+  wf s0 -> d_stage s0 = GetFrameHeader -> d_remaining s0 = 0 -> d_skip s0 = false ->
+  bytes_ok data = true -> 0 <= cap -> le_val (ztake 4 data) = FD_MAGICNUMBER ->
+  let r := snd (decompress_usingDict bdec s0 data cap dict o) in
+  r_ret r = 0 -> zlen (r_out r) < 18446744073709551616 ->
+  exists rest, frame_decode bdec (o_skip o) dict data = Some (r_out r, rest) /\
+               r_consumed r = zlen data - zlen rest.
+Proof.
+  intros s0 data cap dict o Hwf Hst Hrem Hsk Hb Hc Hm. unfold decompress_usingDict. rewrite Hst.
+  replace (stage_num GetFrameHeader <=? FD_dstage_init) with true by (vm_compute; reflexivity).
+  apply (oneshot_sound bdec (set_hist s0 dict) data cap o); auto using wf_set_hist.
+Qed.
